@@ -103,14 +103,21 @@ class RedisRecycleEnv(Env):
     def p_Cmd__arg(s, M, st, th, ci, a):
         p = M.deref(st, a[0]); last = p.f[0][-1]
         M.write(st, a[0], Agg('Cmd', [((last[0], last[1] + (s._lit(M, st, a[1]),), last[2]),)])); return s.ret(st, a[0])
-    def _query(s, M, st, th, a, tuple_reply):
+    def _query(s, M, st, th, a, tuple_reply, want='String'):
         p = M.deref(st, a[0]) if isinstance(a[0], Ref) else a[0]
         n = st.gget('n_query', 0); st.gset('n_query', n + 1)
         st.gset('sent', st.gget('sent', ()) + (p.f[0],))
         st.logev('query', n, repr(p.f[0])[:200])
-        return s.ret(st, Agg('QueryFut', [I(n), Opaque('fresh'), tuple_reply]))
-    def p_Pipeline__query_async(s, M, st, th, ci, a): return s._query(M, st, th, a, True)
-    def p_Cmd__query_async(s, M, st, th, ci, a): return s._query(M, st, th, a, False)
+        return s.ret(st, Agg('QueryFut', [I(n), Opaque('fresh'), tuple_reply, Opaque(want)]))
+    @staticmethod
+    def _want(ci):
+        # the type the reply is decoded into (generic argument of query_async): String, or the raw redis::Value
+        g = ci['text'].split('query_async', 1)[1] if 'query_async' in ci['text'] else ''
+        return 'Value' if re.search(r'\bValue\b', g) else 'String'
+    def p_Pipeline__query_async(s, M, st, th, ci, a): return s._query(M, st, th, a, True, s._want(ci))
+    def p_Cmd__query_async(s, M, st, th, ci, a): return s._query(M, st, th, a, False, s._want(ci))
+    def p_String__as_bytes(s, M, st, th, ci, a): return s.ret(st, a[0])
+    p_str__as_bytes = p_String__as_bytes
 
     def poll_QueryFut(s, M, st, th, fut, fref):
         outs = []; n = fut.f[0].v
@@ -123,8 +130,20 @@ class RedisRecycleEnv(Env):
             if o == 'err':
                 st2.gset('replies', {**st2.gget('replies', {}), n: ('err', None)}); outs.append(('ret', st2, ready(err(Agg('RedisError', [I(n)]))))); continue
             r = z3.Const(f'reply_{n}', TOK); st2.gset('replies', {**st2.gget('replies', {}), n: ('reply', r)})
-            outs.append(('ret', st2, ready(ok(Agg('tuple', [S(r)]) if fut.f[2] else S(r)))))
+            raw = len(fut.f) > 3 and fut.f[3] == Opaque('Value')
+            val = mk_enum('Value', 'BulkString', [S(r)]) if raw else S(r)
+            outs.append(('ret', st2, ready(ok(Agg('tuple', [val]) if fut.f[2] else val))))
+            if raw:
+                # decoded as a raw redis::Value the reply may also be something that is not a bulk string at all (decoded as String these are errors)
+                for kind in ('Nil', 'Okay', 'SimpleString', 'Int'):
+                    st3 = st.clone(); st3.logev('env', 'reply', n, 'other:' + kind)
+                    M.write(st3, fref, fut.with_field(1, Opaque('done')))
+                    st3.gset('replies', {**st3.gget('replies', {}), n: ('other', kind)})
+                    pl = [] if kind in ('Nil', 'Okay') else ([S(z3.Const(f'reply_{n}_s', TOK))] if kind == 'SimpleString' else [z3.BitVec(f'reply_{n}_i', 64)])
+                    v3 = mk_enum('Value', kind, pl)
+                    outs.append(('ret', st3, ready(ok(Agg('tuple', [v3]) if fut.f[2] else v3))))
         return outs
+    def d_Value(s, M, st, th, v): return True
     def d_QueryFut(s, M, st, th, v): return True
     def d_Pipeline(s, M, st, th, v): return True
     def d_Cmd(s, M, st, th, v): return True
@@ -161,12 +180,46 @@ class RedisRecycleEnv(Env):
         return None
 
 
+def redis_value_variants():
+    """variant order of redis::Value, read from the crate source in the cargo registry (the discriminants follow it)"""
+    import glob, os
+    dflt = ['Nil', 'Int', 'BulkString', 'Array', 'SimpleString', 'Okay', 'Map', 'Attribute', 'Set', 'Double', 'Boolean', 'VerbatimString', 'BigNumber', 'Push', 'ServerError']
+    try:
+        lock = open(os.path.join(os.environ.get('VERIF_REPO', '/repo'), 'Cargo.lock')).read()
+        # the version deadpool-redis depends on (the lock file may hold several)
+        dep = re.search(r'name = "deadpool-redis"\n(?:.*\n)*?dependencies = \[\n((?:.*\n)*?)\]', lock)
+        m = re.search(r'"redis(?: ([0-9][^" ]*))?"', dep.group(1)) if dep else None
+        if m and not m.group(1): m = re.search(r'name = "redis"\nversion = "([^"]+)"', lock)
+        c = glob.glob(os.path.expanduser(f'~/.cargo/registry/src/*/redis-{m.group(1)}/src/types.rs')) if m else []
+        if not c: return dflt
+        txt = open(c[0]).read(); i = txt.index('pub enum Value'); body = txt[txt.index('{', i) + 1:]
+        body = re.sub(r'//[^\n]*', '', body); body = re.sub(r'#\[[^\]]*\]', '', body)
+        out = []; d = 0; cur = ''
+        for ch in body:
+            if ch in '({[': d += 1
+            elif ch in ')}]':
+                if d == 0: break
+                d -= 1
+            if ch == ',' and d == 0: out.append(cur); cur = ''
+            else: cur += ch
+        if cur.strip(): out.append(cur)
+        names = []
+        for v in out:
+            v = re.sub(r'///[^\n]*|//[^\n]*|#\[[^\]]*\]', '', v).strip()
+            mm = re.match(r'^(\w+)', v)
+            if mm: names.append(mm.group(1))
+        return names or dflt
+    except Exception:
+        return dflt
+
+
 def run_c17(prog, job):
     """obligations over recycle() of the three flavours"""
     nobl = 0; ndis = 0; npaths = 0; vios = []; samples = []
     for flavour, path in (('standalone', 'redis/src/lib.rs'), ('sentinel', 'redis/src/sentinel/mod.rs'), ('cluster', 'redis/src/cluster/mod.rs')):
         W = World(prog, RedisRecycleEnv()); M = W.M
         M.enums.setdefault('Cow', ['Borrowed', 'Owned'])
+        M.enums.setdefault('Value', redis_value_variants())
         fn = [n for n in M.fns if n.endswith('::recycle') and (path.split('redis/src/')[1] in n if flavour != 'standalone' else ('redis/src/lib.rs' in n))]
         if len(fn) != 1: raise Unmodelled(f'recycle body of the {flavour} manager: {fn}')
         fields = prog.structs[(path, 'Manager')]
